@@ -20,7 +20,8 @@ use std::time::{Duration, SystemTime};
 use jiff::__verif as hooks;
 
 pub const TTL: u64 = 300; // seconds, DEFAULT_TTL of both back-ends
-const NAMES: [&str; 3] = ["Zed/Alpha", "Zed/Beta", "Gamma"];
+// (the third name is a prefix of the first: lookups of one must never be answered with the other)
+const NAMES: [&str; 3] = ["Zed/Alpha", "Zed/Beta", "Zed/Al"];
 
 #[derive(Clone, Copy, PartialEq, Eq, Debug)]
 pub enum Backend {
